@@ -255,7 +255,7 @@ def _evolve_dynamic(cellular_automaton, timesteps, apply_rule, r, memoize):
         array.append(np.array(result, dtype=cellular_automaton.dtype))
         t += 1
 
-    return np.concatenate((cellular_automaton, array[1:]), axis=0)
+    return np.concatenate((cellular_automaton, np.array(array)[1:]), axis=0)
 
 
 def _step(indices, curr_state, next_state, cache, apply_rule, r, t):
